@@ -399,7 +399,9 @@ def expand_block(blk, gen, unit_id):
             # up to the end of the function body (includes a trailing result expression)
             nl = line_start(rf.text, body_hi) - 1
         else:
-            b = rf.unique_line(blk.slice[1], body_lo, body_hi, 'slice end')
+            # the end anchor is looked for from the start anchor on: the first statement after the start that matches it
+            # (the same statement shape may occur again later in a long function, e.g. in the next match arm)
+            b = rf.unique_line(blk.slice[1], body_lo, body_hi, 'slice end') if blk.slice[1] == blk.slice[0] else rf.first_line_from(blk.slice[1], a, body_hi, 'slice end')
             if b < a:
                 raise ExtractError('lost anchor: slice end before start in %s' % blk.label)
             e = rf.stmt_end(b, body_hi)
